@@ -125,6 +125,11 @@ var textOps = []struct {
 		return b.String()
 	}},
 	{"QuoteIdent", func(s string) string { return influxql.QuoteIdent(strings.Fields(s + " x")...) }},
+	// a list of segments that every goroutine passes on as it is: the callee only reads what it is handed
+	{"QuoteIdent(shared list)", func(s string) string {
+		segs := sharedSegments[len(s)%len(sharedSegments)]
+		return influxql.QuoteIdent(segs...) + " <- " + strings.Join(segs, "\x00")
+	}},
 	{"QuoteString", func(s string) string { return influxql.QuoteString(s) }},
 	{"IdentNeedsQuotes", func(s string) string {
 		var b strings.Builder
@@ -141,6 +146,8 @@ var textOps = []struct {
 		return fmt.Sprint(f, back, err)
 	}},
 }
+
+var sharedSegments = [][]string{{"my db", "rp", "m x"}, {"select", "a\"b", ""}, {"plain"}, {"db", "", "cpu load"}, {"a", "b"}}
 
 // read-only operations on a shared statement
 var astOps = []struct {
